@@ -12,7 +12,7 @@ from checks import _gov
 def run(ctx):
     q = ctx.quick
     summ, altsp = _gov.run_gov(ctx, "C35", "C35", "Governance_C35_gen_quick.cfg" if q else "Governance_C35_gen_thorough.cfg",
-                               nv=4 if q else 5, depth=3 if q else 4, cap=600 if q else 4000)
+                               nv=4 if q else 5, depth=3 if q else 4, cap=3000 if q else 8000)
     return ctx.finish(rule="P-EDGE: every (model state, action) edge of Governance.tla in mode C35 replayed on the real "
                       "side_chain_manager; deviating real executions and a bounded exploration of the real contract from each "
                       "deviating state are judged by TLC (GovJudge) with the PropC35 monitor. distinct_nontrivial = distinct "
